@@ -6,6 +6,7 @@ The real BitVec::format_* (and driver::format_output) run on each vector in debu
 formatter model must give the same bytes; the extracted DECODERS (coq/Spec/Decoders.v) run on the
 IMPLEMENTATION's text and must give back the bits padded to the format's granule."""
 import vlib
+import c11_groups
 
 FORMATS = ["binary", "binstr", "hexstr", "bindump", "hexdump", "mif", "intelhex8", "intelhex16", "intelhex32",
            "deccomma", "hexcomma", "decspace", "hexspace", "decc", "hexc", "logisim8", "logisim16"]
@@ -21,7 +22,10 @@ UNIT = {"intelhex8": 8, "intelhex16": 16, "intelhex32": 32}
 RULE = ("G-bits: every length 0..600 (quick) / 0..4096 (thorough) with random, all-ones and all-zero contents (so every "
         "residue modulo 8, 16, 64, 128 and 256 = the granule / line / record sizes) x 17 formats (Intel HEX at units 8/16/32) x "
         "debug and release; multi-block span layouts (gaps, labels, spans outside the output, shuffled order) for Intel HEX; "
-        "directed Intel HEX families beyond 64 Ki units and with unaligned blocks. Each case: implementation text == extracted "
+        "directed Intel HEX families beyond 64 Ki units and with unaligned blocks; stream `groups`: the real customasm binary "
+        "run ONCE with 2..6 `--`-separated output groups (same format kind with different parameters / aliases, mixes of "
+        "all formats, -o files and -p) on generated multi-block programs of any bit length, each group's file decoded "
+        "against asm::assemble's bits and compared with a single-group run. Each case: implementation text == extracted "
         "model text, and extracted decoder(implementation text) == bits padded to the granule. non-trivial = distinct "
         "(format, length, contents) whose length is not a multiple of the format's line/record size (a partial last "
         "granule, byte, line or record), or a multi-block layout")
@@ -162,7 +166,7 @@ def run(chk):
     model_exe = vlib.ocaml_build("fmt_driver", ["fmt_model"])
     # the extracted list functions are not tail recursive: the directed 10^6-bit vectors need a deep stack
     model = ["sh", "-c", "ulimit -s unlimited 2>/dev/null || ulimit -s 4000000 2>/dev/null; exec " + model_exe]
-    bins = vlib.harness_build(("debug", "release"), bins=["fmt"])
+    bins = vlib.harness_build(("debug", "release"), bins=["fmt", "asmtext"])
     known = {f["class"]: f for f in vlib.known_findings() if f.get("property") == "C11" and f.get("status") == "known"}
     quick = chk.tier == "quick"
     maxlen = 600 if quick else 4096
@@ -297,12 +301,16 @@ def run(chk):
     chk.cov["disagreements_checked"] = ndis
     chk.cov["lengths"] = "0..%d, every length, x {random, ones, zeros}" % maxlen
     chk.cov["profiles"] = ["debug", "release"]
+    # the real binary, several output groups in one invocation
+    c11_groups.run_stream(chk, model, bins, image_ok, pad_py, GRANULE, UNIT)
 
 
 def replay(chk, rep):
     bins = vlib.harness_build(("debug", "release"), bins=["fmt"])
     model = [vlib.ocaml_build("fmt_driver", ["fmt_model"])]
     r = rep.get("replay", rep)
+    if r.get("kind") == "groups":
+        return c11_groups.replay(r)
     line = r.get("impl_line")
     if not line:
         print("replay holds no input line (%s)" % r.get("kind"))
